@@ -3,18 +3,22 @@
 """
 
 PROPS = {
-    "C01": dict(title="Encode then decode returns the original message", level="other", bounded=["C01"], design="8/C01",
-                proof=["harness.c01_roundtrip_normal", "harness.c01_roundtrip_normal_table", "harness.c01_roundtrip_normal_vt", "harness.c01_roundtrip_normal_table_vt", "dsw.spiderweb.encode#normal", "dsw.spiderweb.encode#normal-table", "dsw.spiderweb.encode#normal-vt", "dsw.spiderweb.encode#normal-table-vt", "dsw.spiderweb.decode#normal", "dsw.spiderweb.decode#normal-table", "dsw.spiderweb.decode#normal-vt", "dsw.spiderweb.decode#normal-table-vt", "dsw.operation.bit_to_number#str", "dsw.operation.number_to_bit#str", "dsw.operation.calculus_division", "dsw.operation.calculus_multiplication", "dsw.operation.calculus_addition", "dsw.spiderweb.set_vt", "dsw.operation.number_to_dna#int", "lemma.pv_store_frame", "lemma.pv_positive", "lemma.pv_bound", "lemma.pv_inj", "lemma.pv_ext", "lemma.pv_zero", "lemma.pv_leading_zeros", "lemma.ipow_mono", "lemma.wt_store_frame", "lemma.lv_store_frame", "lemma.wt_peel", "lemma.hv_append", "lemma.hv_lv_dual", "lemma.walk_dead", "lemma.digit_bijection", "lemma.digit_bijection_table", "lemma.ssum_zero_iff"],
-                explanation="NORMAL (arbitrary-precision) MODE PROVED: four client harnesses (no table / table x no check / check of any length >= 1) "
+    "C01": dict(title="Encode then decode returns the original message", level="proof", bounded=["C01"], design="8/C01",
+                proof=["harness.c01_roundtrip_fast", "harness.c01_roundtrip_fast_table", "harness.c01_roundtrip_fast_vt", "harness.c01_roundtrip_fast_table_vt", "dsw.spiderweb.encode#fast", "dsw.spiderweb.encode#fast-table", "dsw.spiderweb.encode#fast-vt", "dsw.spiderweb.encode#fast-table-vt", "dsw.spiderweb.decode#fast", "dsw.spiderweb.decode#fast-table", "dsw.spiderweb.decode#fast-vt", "dsw.spiderweb.decode#fast-table-vt", "harness.c01_roundtrip_normal", "harness.c01_roundtrip_normal_table", "harness.c01_roundtrip_normal_vt", "harness.c01_roundtrip_normal_table_vt", "dsw.spiderweb.encode#normal", "dsw.spiderweb.encode#normal-table", "dsw.spiderweb.encode#normal-vt", "dsw.spiderweb.encode#normal-table-vt", "dsw.spiderweb.decode#normal", "dsw.spiderweb.decode#normal-table", "dsw.spiderweb.decode#normal-vt", "dsw.spiderweb.decode#normal-table-vt", "dsw.operation.bit_to_number#str", "dsw.operation.number_to_bit#str", "dsw.operation.calculus_division", "dsw.operation.calculus_multiplication", "dsw.operation.calculus_addition", "dsw.spiderweb.set_vt", "dsw.operation.number_to_dna#int", "lemma.pv_store_frame", "lemma.pv_positive", "lemma.pv_bound", "lemma.pv_inj", "lemma.pv_ext", "lemma.pv_zero", "lemma.pv_leading_zeros", "lemma.ipow_mono", "lemma.wt_store_frame", "lemma.lv_store_frame", "lemma.wt_peel", "lemma.hv_append", "lemma.hv_lv_dual", "lemma.walk_dead", "lemma.digit_bijection", "lemma.digit_bijection_table", "lemma.ssum_zero_iff"],
+                explanation="BOTH MODES PROVED (eight client harnesses: {normal, fast} x {no table, table} x {no check, check of any length >= 1}; fast mode "
+                            "under 'no out-degree 3'; odd-length messages included: a missing last bit at a 4-way vertex is read as 0 and not written "
+                            "back). NORMAL MODE: four client harnesses (no table / table x no check / check of any length >= 1) "
                             "s = encode(m); out = decode(s, len(m)); assert out == m, verified against the contracts of the real encode and decode, "
                             "for every bit array, every well-formed coding graph of every order (reachable vertices have an arc and reach a branching "
                             "vertex: ghost witness R, rank), every start vertex and every permutation table; the argument: the strand is a walk, "
                             "decode visits the same vertices, reads back each digit (C18 bijection lemma), fold/Horner duality, fixed-width "
                             "injectivity.  The closure (encode x4, decode x4, bit_to_number, number_to_bit, calculus_*, set_vt, number_to_dna) is verified "
-                            "against its own contracts.  BOUNDED (never counted as proved): the fast mode.",
-                demoted=["fast mode (is_faster=True) round trip - bounded B2"],
-                claim="Mixed: normal mode deductive (all messages incl. empty/all-zero/leading zeros, all well-formed graphs, all tables, checks of any "
-                      "length); fast mode bounded.",
+                            "against its own contracts.  FAST MODE: the strand is a walk whose bit cursor equals the recursive spec floc, decode "
+                            "visits the same vertices with the same cursor, every written cell equals the message bit (bijection lemma), the cursor ends "
+                            "at or beyond the message length, untouched cells do not exist.",
+                level_override="proof",
+                claim="Deductive for both modes: all messages incl. empty / all-zero / leading zeros / odd length, all well-formed graphs of every order, "
+                      "all start vertices, all permutation tables, checks of any length >= 1.",
                 note="Trusted: numpy where/argsort/array/zeros/sum/indexing contracts (DESIGN 3); pyvc encoding (DESIGN 2).",
                 technique="contracts of encode/decode against the integer reference coder + bounded run-time contract checking"),
     "C02": dict(title="Every emitted strand obeys the biochemical constraints", level="other", bounded=["C02"], design="8/C02",
@@ -52,39 +56,42 @@ PROPS = {
                 note="Trusted: numpy zeros/ones/where/sum/fancy-indexing contracts (DESIGN 3). Bounded part: exhaustive order-2 masks only in the thorough tier.",
                 technique="greatest-fixed-point loop contract on connect_coding_graph + exhaustive order-2 run-time contract checking"),
     "C04": dict(title="Encoding is total, dead-end free and tight on generated graphs", level="other", bounded=["C04"], design="8/C04",
-                proof=["dsw.spiderweb.encode#normal", "dsw.spiderweb.encode#normal-table", "dsw.spiderweb.encode#normal-vt", "dsw.spiderweb.encode#normal-table-vt", "dsw.operation.bit_to_number#str", "dsw.operation.number_to_bit#str", "dsw.operation.calculus_division", "dsw.operation.calculus_multiplication", "dsw.operation.calculus_addition", "lemma.pv_positive", "lemma.pv_bound", "lemma.pv_store_frame"],
+                proof=["dsw.spiderweb.encode#fast", "dsw.spiderweb.encode#fast-table", "dsw.spiderweb.encode#fast-vt", "dsw.spiderweb.encode#fast-table-vt", "dsw.spiderweb.encode#normal", "dsw.spiderweb.encode#normal-table", "dsw.spiderweb.encode#normal-vt", "dsw.spiderweb.encode#normal-table-vt", "dsw.operation.bit_to_number#str", "dsw.operation.number_to_bit#str", "dsw.operation.calculus_division", "dsw.operation.calculus_multiplication", "dsw.operation.calculus_addition", "lemma.pv_positive", "lemma.pv_bound", "lemma.pv_store_frame"],
                 explanation="PROVED on the real encode (normal mode) under the well-formedness witness (R closed under arcs, every vertex of R has an arc, a "
                             "rank that decreases along one-arc steps): the loop terminates (lexicographic variant (quotient value, rank of the vertex): a "
                             "branching step divides a positive quotient by d >= 2, a one-arc step lowers the rank), the 'no out-degree' ValueError is "
                             "unreachable, the strand is a walk of the graph.  For thresholds 2..4 generation yields such graphs with rank = 0 (C03 proof: "
-                            "closed set).  BOUNDED: tightness clauses (weight product <= message value, L / ceil(L/2) corollaries), the fast mode, and "
+                            "closed set).  FAST MODE PROVED: variant (bits left, rank), carried bits total L or L+1 (loc[n] in {L, L+1}), no out-degree error.  "
+                            "BOUNDED: the normal-mode tightness clauses (weight product <= message value, L / ceil(L/2) corollaries) and "
                             "'generation => well-formed' for threshold 1.",
-                demoted=["tightness clauses - bounded B2", "fast mode - bounded B2", "threshold-1 generated graphs are well-formed - bounded B2 (C03)"],
-                claim="Mixed: totality / dead-end freedom / walk clause deductive for the normal mode; tightness and fast mode bounded.",
+                demoted=["normal-mode tightness clauses - bounded B2", "threshold-1 generated graphs are well-formed - bounded B2 (C03)"],
+                claim="Mixed: totality / dead-end freedom / walk clause deductive for both modes, fast-mode carried bits deductive; normal-mode tightness bounded.",
                 note="Trusted: as C05.",
                 technique="variant and tightness invariant on encode + bounded run-time contract checking on generated graphs"),
-    "C05": dict(title="The strand is the documented mixed-radix walk", level="other", bounded=["C05"], design="8/C05",
-                proof=["dsw.spiderweb.encode#normal", "dsw.spiderweb.encode#normal-table", "dsw.spiderweb.encode#normal-vt", "dsw.spiderweb.encode#normal-table-vt", "dsw.spiderweb.decode#normal", "dsw.spiderweb.decode#normal-table", "dsw.spiderweb.decode#normal-vt", "dsw.spiderweb.decode#normal-table-vt", "dsw.operation.bit_to_number#str", "dsw.operation.number_to_bit#str", "dsw.operation.calculus_division", "dsw.operation.calculus_multiplication", "dsw.operation.calculus_addition", "dsw.spiderweb.set_vt", "dsw.operation.number_to_dna#int", "lemma.pv_store_frame", "lemma.pv_positive", "lemma.pv_bound", "lemma.pv_inj", "lemma.pv_ext", "lemma.pv_zero", "lemma.pv_leading_zeros", "lemma.ipow_mono", "lemma.wt_store_frame", "lemma.lv_store_frame", "lemma.wt_peel", "lemma.hv_append", "lemma.hv_lv_dual", "lemma.walk_dead", "lemma.ssum_zero_iff"],
+    "C05": dict(title="The strand is the documented mixed-radix walk", level="proof", bounded=["C05"], design="8/C05",
+                proof=["dsw.spiderweb.encode#fast", "dsw.spiderweb.encode#fast-table", "dsw.spiderweb.encode#fast-vt", "dsw.spiderweb.encode#fast-table-vt", "dsw.spiderweb.decode#fast", "dsw.spiderweb.decode#fast-table", "dsw.spiderweb.decode#fast-vt", "dsw.spiderweb.decode#fast-table-vt", "dsw.spiderweb.encode#normal", "dsw.spiderweb.encode#normal-table", "dsw.spiderweb.encode#normal-vt", "dsw.spiderweb.encode#normal-table-vt", "dsw.spiderweb.decode#normal", "dsw.spiderweb.decode#normal-table", "dsw.spiderweb.decode#normal-vt", "dsw.spiderweb.decode#normal-table-vt", "dsw.operation.bit_to_number#str", "dsw.operation.number_to_bit#str", "dsw.operation.calculus_division", "dsw.operation.calculus_multiplication", "dsw.operation.calculus_addition", "dsw.spiderweb.set_vt", "dsw.operation.number_to_dna#int", "lemma.pv_store_frame", "lemma.pv_positive", "lemma.pv_bound", "lemma.pv_inj", "lemma.pv_ext", "lemma.pv_zero", "lemma.pv_leading_zeros", "lemma.ipow_mono", "lemma.wt_store_frame", "lemma.lv_store_frame", "lemma.wt_peel", "lemma.hv_append", "lemma.hv_lv_dual", "lemma.walk_dead", "lemma.ssum_zero_iff"],
                 explanation="NORMAL MODE PROVED on the real encode: there are witnesses gq (quotient chain, gq[0] = message value, gq[n] = 0, every "
                             "earlier gq > 0) and vtx (vertices) such that at every position the out-degree d of the current vertex decides: d > 1: the "
                             "emitted nucleotide is the live arc whose rank (A<C<G<T, or by table entry) is gq mod d and gq moves to gq div d; d = 1: the "
                             "only arc, gq unchanged - i.e. little-endian mixed radix, one-arc vertices contribute no digit; the spec is written with "
                             "rank/arc functions independent of argsort.  On the real decode: for every walk, the result is the big-endian width-L "
                             "rendering of the little-endian mixed-radix value of its digit sequence whenever that fits (fold/Horner duality lemma).  "
-                            "BOUNDED: the fast mode (two bits per 4-way vertex, one per 2-way vertex).",
-                demoted=["fast mode scheme - bounded B2 against the integer reference coder"],
-                claim="Mixed: normal mode deductive for all messages, graphs (out-degrees 1..4 mixed), start vertices and tables; fast mode bounded.",
+                            "FAST MODE PROVED on the real encode / decode: witnesses loc (bit cursor) and vtx with, at every position, out-degree 4: two "
+                            "bits most significant first (a missing last bit reads 0), out-degree 2: one bit, out-degree 1: none, arc selected by rank; "
+                            "decode writes exactly those cells.",
+                claim="Deductive for both modes: all messages, graphs (out-degrees 1..4 mixed; fast mode without out-degree 3), start vertices and tables.",
                 note="Trusted: numpy where/argsort/fancy-indexing contracts; encode is verified under the well-formedness precondition of C01/C04.",
                 technique="postconditions of encode/decode equal to the spec coder + bounded differential contract checking"),
-    "C06": dict(title="Decoding accepts exactly the walks", level="other", bounded=["C06"], design="8/C06",
-                proof=["dsw.spiderweb.decode#normal", "dsw.spiderweb.decode#normal-table", "dsw.spiderweb.decode#normal-vt", "dsw.spiderweb.decode#normal-table-vt", "dsw.operation.bit_to_number#str", "dsw.operation.number_to_bit#str", "dsw.operation.calculus_division", "dsw.operation.calculus_multiplication", "dsw.operation.calculus_addition", "dsw.spiderweb.set_vt", "dsw.operation.number_to_dna#int", "lemma.walk_dead", "lemma.pv_inj", "lemma.pv_ext", "lemma.hv_lv_dual", "lemma.hv_append", "lemma.wt_peel", "lemma.lv_store_frame", "lemma.wt_store_frame"],
+    "C06": dict(title="Decoding accepts exactly the walks", level="proof", bounded=["C06"], design="8/C06",
+                proof=["dsw.spiderweb.decode#fast", "dsw.spiderweb.decode#fast-table", "dsw.spiderweb.decode#fast-vt", "dsw.spiderweb.decode#fast-table-vt", "dsw.spiderweb.decode#normal", "dsw.spiderweb.decode#normal-table", "dsw.spiderweb.decode#normal-vt", "dsw.spiderweb.decode#normal-table-vt", "dsw.operation.bit_to_number#str", "dsw.operation.number_to_bit#str", "dsw.operation.calculus_division", "dsw.operation.calculus_multiplication", "dsw.operation.calculus_addition", "dsw.spiderweb.set_vt", "dsw.operation.number_to_dna#int", "lemma.walk_dead", "lemma.pv_inj", "lemma.pv_ext", "lemma.hv_lv_dual", "lemma.hv_append", "lemma.wt_peel", "lemma.lv_store_frame", "lemma.wt_store_frame"],
                 explanation="NORMAL MODE PROVED on the real decode, for strings over ANY alphabet, every coding graph (any arc subset), start vertex, table: "
                             "ValueError is raised exactly when the string is not a walk from the start vertex (recursive spec walkv) or a supplied "
                             "check (length >= 1) is not the documented check of the string (uniqueness of the check is proved at the raise site); every "
                             "other path returns an array of exactly bit_length entries; no other exception can escape (every subscript, .index, int() "
-                            "and callee precondition is an obligation).  BOUNDED: the fast mode equivalence.",
-                demoted=["fast mode - bounded B2"],
-                claim="Mixed: normal mode deductive; fast mode bounded.",
+                            "and callee precondition is an obligation).  FAST MODE PROVED under the statement's preconditions (no out-degree 3; the walkable "
+                            "prefix never needs a bit cell beyond the requested length, stated with the recursive cursor spec floc): same equivalence, "
+                            "every cell write is in range.",
+                claim="Deductive for both modes.",
                 note="Trusted: numpy contracts as C05; set_vt / number_to_bit / calculus_* by their own (proved) contracts.",
                 technique="exceptional postcondition of decode + bounded run-time contract checking"),
     "C07": dict(title="The path check is the documented VT function", level="proof", bounded=["C07"], design="8/C07",
